@@ -54,8 +54,12 @@ def good_name(i: int) -> str:
     return f"net_{GOOD_TYPES[i % len(GOOD_TYPES)]}_{i:04X}"
 
 
+def good_id(i: int) -> int:
+    return 0x1000 + (i % 2)          # hosts 0/2 and 1/3 advertise the same device id (clones): still one device per address
+
+
 def good_datagram(i: int, ip: str) -> bytes:
-    return sd.reply(2 + i % 2, 0x1000 + i, ip, 6444, f"{i:032d}", good_name(i))
+    return sd.reply(2 + i % 2, good_id(i), ip, 6444, f"{i:032d}", good_name(i))
 
 
 def configs(tier):
@@ -158,7 +162,7 @@ def run_shard(shard, tier) -> Stats:
                 else:
                     for d in out[1]:
                         i = int(d.ip.rsplit(".", 1)[1]) - 10
-                        if d.id != 0x1000 + i or d.name != good_name(i):
+                        if d.id != good_id(i) or d.name != good_name(i):
                             prob = "device reported with another host's identity"
             if prob:
                 bads = "+".join(sorted(set(r for r in roles if r != "good"))) or "none"
